@@ -146,6 +146,7 @@ func c05Pipeline(w *ndWriter, lab J, doc J, data []byte) {
 		if e != nil {
 			return fmt.Errorf("decode: %w", e)
 		}
+		clobberDecode(len(data)) // a later decode must not disturb the value decoded before
 		ev["out1"] = projectItem(d1)
 		if d1 == nil {
 			return nil
